@@ -24,6 +24,12 @@ using db_t = unodb::mutex_db<std::uint64_t, unodb::value_view>;
 using db_t = unodb::olc_db<std::uint64_t, unodb::value_view>;
 #endif
 
+static void olc_thread_init() {
+#if DBKIND == 2
+  static bool done = false;
+  if (!done) { done = true; static unodb::detail::set_qsbr_per_thread_in_main_thread reg; }   // registers this (only) thread with QSBR, as the library does at start-up
+#endif
+}
 static unodb::value_view vv(const std::uint8_t* b, std::size_t n) { return unodb::value_view{reinterpret_cast<const std::byte*>(b), n}; }
 
 // uniform access to get(): returns found flag, copies up to 4 value bytes
@@ -34,7 +40,7 @@ static got do_get(db_t& d, std::uint64_t k) {
 #if DBKIND == 1
   if (r.first.has_value()) { g.found = true; g.size = r.first->size(); for (std::size_t i = 0; i < g.size && i < 4; i++) g.b[i] = static_cast<std::uint8_t>((*r.first)[i]); }
 #else
-  if (r.has_value()) { g.found = true; g.size = r->size(); for (std::size_t i = 0; i < g.size && i < 4; i++) g.b[i] = static_cast<std::uint8_t>((*r)[i]); }
+  if (r.has_value()) { g.found = true; g.size = r->size(); for (std::size_t i = 0; i < g.size && i < 4; i++) g.b[i] = static_cast<std::uint8_t>(r->begin()[static_cast<std::ptrdiff_t>(i)]); }
 #endif
   return g;
 }
@@ -78,6 +84,7 @@ HARNESS(h_two_keys) {
 // ---------------------------------------------------------------- smaller two-key variants (1-byte values)
 static std::uint8_t one = 0x11, two = 0x22;
 HARNESS(h2_get) {
+  olc_thread_init();
   static db_t d;
   std::uint64_t k1 = in_u64(), k2 = in_u64(), q = in_u64();
   bool r1 = d.insert(k1, vv(&one, 1));
@@ -129,6 +136,7 @@ static const std::uint64_t K_sparse[] = {0x0000000000000000ULL, 0x80000000000000
 // value of prelude entry i: byte i+1 repeated vlen(i) times, vlen cycles through 1, 0, 2 (empty values included)
 static unsigned vlen(unsigned i) { return i % 3 == 0 ? 1 : (i % 3 == 1 ? 0 : 2); }
 static void build(db_t& d, const std::uint64_t* keys, unsigned n) {
+  olc_thread_init();
   for (unsigned i = 0; i < n; i++) {
     std::uint8_t v[2] = {static_cast<std::uint8_t>(i + 1), static_cast<std::uint8_t>(i + 1)};
     bool r = d.insert(keys[i], vv(v, vlen(i)));
